@@ -33,12 +33,21 @@ if [ "$name:$k:late" = "$plan" ]; then      # the tool does its work (writes its
   printf 'FAULT\t%s\t%s\n' "$n" "$name:$k:late" >> "$CTL/log"
   hit=2
 fi
+case "$plan" in
+  "$name:"*":stuck")                        # the tool fails at its k-th use and at every later one (a mount that stays down)
+    kk="${plan#$name:}"; kk="${kk%:stuck}"
+    if [ "$k" -ge "$kk" ]; then
+      printf 'FAULT\t%s\t%s\n' "$n" "$plan" >> "$CTL/log"
+      hit=1
+    fi ;;
+esac
 exec 9>&-
 if [ $hit = 1 ]; then exit 97; fi
 nonce=""; [ -f "$CTL/nonce" ] && nonce=$(<"$CTL/nonce")
 case "$name" in
   mkdir|cp|cat|chmod|rm|dirname|xrdcp|tee|mv|ls|touch|ln|head|tail|sed|grep|date|sleep|basename|true|false|test|env|tr|cut|sort|wc)
     if [ "$name" = xrdcp ]; then exec /usr/bin/cp "$@"; fi
+    if [ "$name" = sleep ]; then exit 0; fi       # time is not modelled
     exec /usr/bin/$name "$@" ;;
   cmake)
     [ -d "$1" ] || exit 3
